@@ -1259,6 +1259,15 @@ class SyncInterpreter(BaseInterpreter[TContext, TEvent]):
         Args:
             state (StateNode): The state whose timers should be cancelled.
         """
+        # 🧹 Drop notifications of this activation that are already queued —
+        #    see `Interpreter._cancel_state_tasks`.
+        if (state.after or state.invoke) and self._event_queue:
+            self._event_queue = deque(
+                e
+                for e in self._event_queue
+                if not self._is_stale_notification(e, state)
+            )
+
         state_prefix = f"{state.id}::"  # our internal key scheme
         to_cancel = [
             k
